@@ -68,6 +68,48 @@ def use_after_move(run, F):
     if n == 0: raise Broken('no std::move of a local found (extractor too old?)')
 
 
+@rule('R-MOVE-GUARDED', ['C18', 'C02', 'C12'], floor=1)
+def move_while_guard_armed(run, F):
+    """a local that an armed scope_guard uses (captures) is not moved from while the guard can still run: the guard runs on the exceptional exit of the very statements that follow, so a `std::move(allocator)` into the object under construction leaves the clean-up (deallocate through that allocator) with a moved-from object"""
+    from ..facts import guard_vars
+    n = 0
+    for f in F.funcs:
+        if not f.get('blocks'): continue
+        gv = guard_vars(f)
+        if not gv: continue
+        G = Graph(f)
+        # guard variable -> (decl node, captured names)
+        lam_caps = {e['line']: set(e.get('caps') or []) for _, e in G.ev.items() if e.get('k') == 'lambda'}
+        # implicit captures of a dependent `[&]` lambda are not known before instantiation: use the names its body mentions
+        for lf in F.lambdas_of(f):
+            names = set()
+            for _, _, le in events(lf):
+                for pth, _mv in occurrences(le): names.add(pth.split('.')[0])
+            lam_caps.setdefault(lf['line'], set()).update(names)
+        guards = {}
+        for node, e in G.ev.items():
+            if e.get('k') == 'decl':
+                for v in e['vars']:
+                    if v['var'] in gv: guards[v['var']] = (node, lam_caps.get(gv[v['var']], set()))
+        if not guards: continue
+        for g, (dn, caps) in guards.items():
+            n += 1
+            run.inst(site(f, G.line(dn)), 'locals used by scope_guard `%s` (%s) are not moved from while it is armed' % (g, sorted(caps)[:4]), key=(f['qname'], g))
+            rel = {x for x, e in G.ev.items() if e.get('k') == 'call' and e['callee'].get('name') in ('release', 'reset') and e['callee'].get('base') == g}
+            armed = G.reach([m for m, _ in G.succ.get(dn, [])], blocked=rel)
+            for x in sorted(armed):
+                e = G.ev[x]
+                if e.get('k') not in ('call', 'construct', 'initlist', 'decl', 'assign', 'ret'): continue
+                for p, mv in occurrences(e):
+                    if mv and p in caps and '.' not in p:
+                        run.violation(f['qname'], 'move-under-guard:' + p, '%s:%s' % (f['file'], G.line(x)),
+                                      '`%s` is moved from at line %s while scope_guard `%s` (declared at line %s), which uses it, is still armed: if a later step throws, the guard runs with a moved-from `%s`' % (p, G.line(x), g, G.line(dn), p))
+                        break
+                else: continue
+                break
+    if n == 0: raise Broken('no scope_guard with captures found')
+
+
 def _occ_fw(e):
     out = []
     def walk(x):
@@ -160,6 +202,10 @@ def move_of_forwarding_reference(run, F):
             for p in out:
                 pn = p.split('.')[0]
                 if (f['qname'], pn) in MOVE_FWDREF_EXEMPT or (f['qname'], pn) in seen: continue
+                # std::move(x).ref_member_ where the member is an lvalue reference: the expression is an lvalue, nothing is moved
+                mem = p.split('.')[-1] if '.' in p else None
+                if mem and any(fl['name'] == mem and (fl.get('type') or '').rstrip().endswith('&') and not (fl.get('type') or '').rstrip().endswith('&&')
+                               for r in F.recs if r['_family'] == f['_family'] for fl in r['fields']): continue
                 seen.add((f['qname'], pn))
                 run.violation(f['qname'], 'move-of-forwarding-ref:' + pn, '%s:%s' % (f['file'], e.get('line')),
                               '`%s` is passed through std::move although `%s` is a forwarding reference (%s&&): when the caller passes an lvalue its object is moved from (e.g. a sender connected a second time delivers moved-from values); use static_cast<%s&&>(%s)%s' % (p, pn, fps[pn], fps[pn], pn, p[len(pn):]))
